@@ -13,7 +13,7 @@ var Plans = map[string][]PlanItem{
 	"C07": {{Scen: "docvalues", Quick: 3000, Thorough: 200000}},
 	"C08": {{Scen: "dictionary", Quick: 8000, Thorough: 500000}},
 	"C18": {{Scen: "dmt", Quick: 8000, Thorough: 500000}},
-	"C13": {{Scen: "reuse", Quick: 8000, Thorough: 500000}},
+	"C13": {{Scen: "reuse", Quick: 6000, Thorough: 400000}, {Scen: "docvalues", Quick: 1500, Thorough: 100000}},
 	"C15": {{Scen: "immutability", Quick: 2000, Thorough: 200000}},
 	"C17": {{Scen: "tree", Quick: 3000, Thorough: 200000}},
 	"C12": {{Scen: "persist-fault", Quick: 160, Thorough: 12000}},
